@@ -540,7 +540,8 @@ def identity_case(history, req_len=100):
 def identity_cases(tier):
     import itertools as it
     events = [(dev, st, caps) for dev in (100, 200) for st in (10, 20) for caps in ("big", "small")]
-    for n in ((1, 2, 3) if tier == "quick" else (1, 2, 3, 4)):
+    # (length 4 is the shortest history in which a displaced record is updated again: it belongs in the quick tier)
+    for n in ((1, 2, 3, 4) if tier == "quick" else (1, 2, 3, 4, 5)):
         for h in it.product(events, repeat=n):
             # a device keeps its capability set within one history (it is the same device), two devices differ
             caps = {}
